@@ -91,7 +91,8 @@ func chanTrace(e *env) error {
 		switch final {
 		case "cb":
 			// a malformed line in one more record; further records after it must never be seen
-			sb.WriteString("2021/02/01:\n  x: 1\n  broken\n2021/02/02:\n  y: 2\n")
+			bad := []string{"  broken", "  pear: 1,5", "\tname: x1", "- \"q\":"}[e.rng.Intn(4)]
+			sb.WriteString("2021/02/01:\n  x: 1\n" + bad + "\n2021/02/02:\n  y: 2\n")
 			items = append(items, "err")
 		case "io":
 			sb.WriteString("2021/03/01:\n  pending: 1\n")
@@ -149,7 +150,7 @@ func chanTrace(e *env) error {
 			select {
 			case <-exited:
 				e.emitEv("ProducerExited", map[string]interface{}{})
-			case <-time.After(5 * time.Second):
+			case <-time.After(3 * time.Second):
 				e.emitEv("ProducerBlocked", map[string]interface{}{})
 			}
 		}
